@@ -30,6 +30,7 @@ FIELD_PROP = {
     "stops": "C07",
     "sock": "C08", "tr": "C08", "tm": "C08", "pm": "C08",
     "skipped_timer": "C09", "not_enabled": "C09",
+    "nh": "C11", "nw": "C11",
 }
 
 
@@ -61,6 +62,8 @@ def tokens_to_schedule(tokens: list) -> list:
             continue
         if k == "t":
             sch.append(("tick",))
+        elif k == "w":
+            sch.append(("adv", int(t[1]) * 1000))
         elif k == "chunk":
             sch.append(("ev", "chunk", [dict(m) for m in t[1]]))
         elif k == "finish":
@@ -76,7 +79,9 @@ def tokens_to_schedule(tokens: list) -> list:
     return sch
 
 
-def tlc_schedules(ctx, cfg_file: str, limit: int | None, rng: random.Random) -> list:
+def tlc_schedules(ctx, cfg_file: str, limit: int | None, rng: random.Random, connected: bool = False, kscale: int = 1000) -> list:
+    """Schedules printed by a GenMode run; `connected`: the slice starts from InitConnected, so the
+    real connection first goes through the happy connect."""
     r = ctx.tlc("MC_Connection", cfg_file, workers=1, timeout=3000)
     seen = set()
     out = []
@@ -87,7 +92,8 @@ def tlc_schedules(ctx, cfg_file: str, limit: int | None, rng: random.Random) -> 
         seen.add(line)
         cfg, toks = parse_tagged([line], "SCHED")[0]
         c = {"noise": bool(cfg["noise"]), "exp": cfg["exp"], "login": bool(cfg["login"]), "K": int(cfg["K"]) * 1000}
-        out.append((c, tokens_to_schedule(toks)))
+        sch = tokens_to_schedule(toks)
+        out.append((c, (connsim.happy_connect(c) + sch) if connected else sch))
     if limit is not None and len(out) > limit:
         out = rng.sample(out, limit)
     return out
@@ -192,13 +198,26 @@ def run_family(ctx, name: str, cases: list) -> dict:
         for idx, t in enumerate(part):
             if t.get("format_errors"):
                 findings.append({"props": ["C02"], "fields": ["format"], "cause": "write", "cfg": t["cfg"], "schedule": cases[off + idx][1], "line": 0, "rows": [], "detail": t["format_errors"][:3]})
-    return {"n": len(cases), "rows": rows_total, "findings": findings}
+    # what the executions reached (vacuity guard: a family must exercise what it was built for)
+    reach = {"connected": 0, "finish_done": 0, "closed": 0, "calls_done": 0, "deliveries": 0, "pings": 0, "ping_deaths": 0, "skipped_events": 0}
+    for t in traces:
+        rows = t["rows"]
+        reach["connected"] += any(r["cs"] == "connected" for r in rows)
+        reach["closed"] += any(r["cs"] == "closed" for r in rows)
+        reach["finish_done"] += any(d[0] == "finish" for r in rows for d in r["dn"])
+        reach["calls_done"] += sum(1 for r in rows for d in r["dn"] if d[0] in ("c1", "c2", "c3"))
+        reach["deliveries"] += sum(len(r["d"]) for r in rows)
+        reach["pings"] += sum(r["w"].count("PingRequest") for r in rows)
+        reach["ping_deaths"] += any(r["c"] == "int" and r["cs"] == "closed" and r["sa"] == [False] and not r["w"] and not r["dn"] and i and rows[i - 1]["cs"] == "connected" and rows[i - 1]["q"] for i, r in enumerate(rows))
+        reach["skipped_events"] += t.get("skipped", 0)
+    return {"n": len(cases), "rows": rows_total, "findings": findings, "reach": reach}
 
 
-def report(ctx, family: str, res: dict) -> None:
+def report(ctx, family: str, res: dict, own: bool = False) -> None:
+    """own: the family was built to exercise ctx.pid - every unexplained row in it counts for it."""
     for f in res["findings"]:
         sig = f"Connection/{family}/{f['cause']}/{'+'.join(f['fields'])}"
-        if ctx.pid in f["props"]:
+        if ctx.pid in f["props"] or (own and f["fields"] != ["format"]):
             ctx.violation(sig, {"kind": "conn-trace", "family": family, **f})
         else:
             ctx.notes.append(f"mismatch attributed to {f['props']} seen in family {family}: {sig}")
@@ -256,7 +275,7 @@ def general(ctx) -> dict:
         rng = random.Random(ctx.seed + 5)
         out = {}
         # model checking of the design (all interleavings within the bounds)
-        ctx.tlc("MC_Connection", "MC_Connection_connect.cfg", coverage=True, timeout=3000)
+        ctx.tlc("MC_Connection", "MC_Connection_connect.cfg", coverage=not ctx.quick, timeout=3000)
         if not ctx.quick:
             ctx.tlc("MC_Connection", "MC_Connection_deep.cfg", timeout=6000)
         # TLC-generated schedules: one per distinct quiescent state
@@ -293,3 +312,29 @@ def run_general_property(ctx, extra_families=()):
         "SimTransport mirrors _SelectorSocketTransport (close, force-close, dropped writes after loss, EBADF on a closed fd)",
         "second start_connection / finish_connection while the first is still pending is outside the domain",
     ]
+
+
+def dedicated(ctx, name: str, mc_cfgs: list, build) -> None:
+    """Model-check the property's slices, then run the property's own families.
+    build(ctx, rng) -> {family name: [(cfg, schedule)]}"""
+
+    def compute(ctx):
+        rng = random.Random(ctx.seed + 17)
+        for cfg_file, kw in mc_cfgs:
+            ctx.tlc("MC_Connection", cfg_file, coverage=kw.pop("coverage", not ctx.quick), timeout=6000, **kw)
+        out = {}
+        for fam, cases in build(ctx, rng).items():
+            out[fam] = run_family(ctx, fam, cases)
+            out[fam]["sample"] = cases[len(cases) // 2] if cases else None
+        return out
+
+    res = cached(ctx, name, compute)
+    for fam, r in res.items():
+        ctx.extra[f"reached_{fam}"] = r.get("reach")
+        report(ctx, fam, r, own=True)
+        ctx.evaluations += r["n"]
+        ctx.extra[f"rows_{fam}"] = r["rows"]
+        ctx.distinct |= {(fam, i) for i in range(r["n"])}
+        if r.get("sample"):
+            s = r["sample"]
+            ctx.sample({f"{fam}_schedule": [s[0], s[1][:40]]})
